@@ -92,6 +92,9 @@ protected:
             {
                 rng.random_vec(f);
             }
+            // ||f|| before the orthogonalization, used to detect the case that f lies
+            // (numerically) in the range of V, so that only rounding errors remain afterwards
+            const RealScalar fnorm0 = m_op.norm(f);
             // f <- f - V * (V^H)Bf, so that f is orthogonal to V in B-norm
             m_op.adjoint_product(V, f, Vf);
             f.noalias() -= V * Vf;
@@ -119,10 +122,10 @@ protected:
             // If the condition is satisfied, simply return
             // Otherwise, go to the next iteration and try a new random vector
 #ifdef YIXUAN_SPECTRA_VERIF
-            if (ortho_err < m_eps * fnorm)
+            if (ortho_err < m_eps * fnorm && fnorm > m_eps * sqrt(RealScalar(m_n)) * fnorm0)
                 verif_notify(verif::EvExpandBasis, V.cols(), fnorm, RealScalar(1));
 #endif
-            if (ortho_err < m_eps * fnorm)
+            if (ortho_err < m_eps * fnorm && fnorm > m_eps * sqrt(RealScalar(m_n)) * fnorm0)
                 return;
         }
 #ifdef YIXUAN_SPECTRA_VERIF
@@ -247,6 +250,10 @@ public:
         m_fac_H.rightCols(m_m - from_k).setZero();
         m_fac_H.block(from_k, 0, m_m - from_k, from_k).setZero();
 
+        // An estimate of the magnitude of A: the largest ||A * v|| seen so far, which can be
+        // read from H and beta. Whether ||f|| is "close to zero" is decided relative to it.
+        RealScalar anorm = (std::max)(m_beta, RealScalar(m_fac_H.topLeftCorner(from_k, from_k).cwiseAbs().maxCoeff()));
+
         for (Index i = from_k; i <= to_m - 1; i++)
         {
             bool restart = false;
@@ -282,7 +289,10 @@ public:
             m_fac_f.noalias() = w - Vs * h;
             m_beta = m_op.norm(m_fac_f);
 
-            if (m_beta > RealScalar(0.717) * m_op.norm(h))
+            // ||w||^2 = ||h||^2 + ||f||^2
+            const RealScalar hnorm = m_op.norm(h);
+            anorm = (std::max)(anorm, (std::max)(hnorm, m_beta));
+            if (m_beta > RealScalar(0.717) * hnorm)
                 continue;
 
             // f/||f|| is going to be the next column of V, so we need to test
@@ -297,8 +307,9 @@ public:
                 // of noises of rounding errors, so the test [ortho_err < eps * beta] is very
                 // likely to fail. In particular, if beta=0, then the test is ensured to fail.
                 // Hence when this happens, we force f to be zero, and then restart in the
-                // next iteration.
-                if (m_beta < beta_thresh)
+                // next iteration. The rounding errors in f are proportional to the magnitude
+                // of A, so "close to zero" is measured relative to it.
+                if (m_beta < beta_thresh * anorm)
                 {
 #ifdef YIXUAN_SPECTRA_VERIF
                     verif_notify(verif::EvForcedZero, i, m_beta, ortho_err);
